@@ -1,5 +1,6 @@
 """C19 — TDES/AES ECB and CBC wrappers are exact, length-preserving inverses."""
-from core import Case, enc_b
+import core
+from core import Case, enc_b, psec
 
 OBLIGATIONS = ["Psec.Props.C19.tdes_ecb_dec_enc", "Psec.Props.C19.tdes_ecb_enc_dec", "Psec.Props.C19.tdes_cbc_dec_enc", "Psec.Props.C19.tdes_cbc_enc_dec", "Psec.Props.C19.tdes_reject", "Psec.Props.C19.aes_ecb_dec_enc", "Psec.Props.C19.aes_ecb_enc_dec", "Psec.Props.C19.aes_cbc_dec_enc", "Psec.Props.C19.aes_cbc_enc_dec", "Psec.Props.C19.aes_reject", "Psec.Props.C19.tdes_ecb_blockwise", "Psec.Props.C19.tdes_cbc_textbook", "Psec.Props.C19.aes_ecb_blockwise", "Psec.Props.C19.aes_cbc_textbook", "Psec.Props.C19.kcv_spec", "Psec.Props.C19.ref_lawful", "Psec.refTdes_laws", "Psec.refAes_laws", "Psec.Props.C19.ref_tdes_cbc_dec_enc", "Psec.Props.C19.ref_aes_cbc_dec_enc"]
 TRUSTED_BASE = ["Lean 4.33 kernel", "hypothesis Ciphers.Lawful (block decryption inverts block encryption) for the cryptography package's TDES/AES",
@@ -61,6 +62,31 @@ def generate(rng, tier, seed):
                                 return f"CBC block {j} is not E(p_j xor c_(j-1))"
                     c.pred("ECB per block / CBC textbook chaining", p)
                     yield c
+        # long data around the sizes an implementation might chunk or buffer at: the model computes textbook chaining over the
+        # whole input, so a context restarted (or finalised) mid-stream shows as a disagreement
+        for ln in sorted(set(x - x % bs for x in core.big_lengths(rng, tier, bs))):
+            key, iv, data = rb(rng, rng.choice(ksizes)), rb(rng, bs), rb(rng, ln)
+            c = Case(f"{alg}:long", {"len": ln})
+            e = c.call(f"{mod}.encrypt_{alg}_ecb", key, data)
+            ce = c.call(f"{mod}.encrypt_{alg}_cbc", key, iv, data)
+            cd = c.call(f"{mod}.decrypt_{alg}_cbc", key, iv, data)
+            d = c.call(f"{mod}.decrypt_{alg}_ecb", key, data)
+            if not (e.ok and ce.ok and cd.ok and d.ok) or not all(len(x.value) == ln for x in (e, ce, cd, d)):
+                c.fail("long valid input rejected or output length differs")
+            else:
+                # textbook chaining checked on the implementation alone with single-block calls at every 64th block and at the
+                # blocks next to each 1 KiB boundary
+                enc1 = getattr(getattr(psec, mod), f"encrypt_{alg}_ecb")
+                for j in range(ln // bs):
+                    if j % 64 == 0 or (j * bs) % 1024 < 2 * bs:
+                        prev = iv if j == 0 else ce.value[(j - 1) * bs:j * bs]
+                        if enc1(key, xor(data[j * bs:(j + 1) * bs], prev)) != ce.value[j * bs:(j + 1) * bs]:
+                            c.fail(f"CBC block {j} of {ln // bs} is not E(p_j xor c_(j-1))")
+                            break
+                        if enc1(key, data[j * bs:(j + 1) * bs]) != e.value[j * bs:(j + 1) * bs]:
+                            c.fail(f"ECB block {j} is not the independent encryption of plaintext block {j}")
+                            break
+            yield c
         # rejection: every data length 0..3 blocks (valid key/iv), key / iv length 0..40 (valid data)
         for fn, has_iv in ((f"encrypt_{alg}_ecb", False), (f"decrypt_{alg}_ecb", False), (f"encrypt_{alg}_cbc", True), (f"decrypt_{alg}_cbc", True)):
             for ln in range(0, 3 * bs + 1):
